@@ -22,7 +22,7 @@ TrInit == /\ l < Len(Rec) /\ R.ev = "init" /\ l' = l + 1
 
 Other(nm) == IF nm = "a" THEN "b" ELSE "a"
 Act(op, nm) == CASE op = "next" -> CNext(nm) [] op = "next_back" -> CNextBack(nm) [] op = "next_none" -> CNone(nm)
-                 [] op = "clone" -> Clone(nm, Other(nm)) [] op = "drop" -> DropObj(nm)
+                 [] op = "clone" -> Clone(nm, Other(nm)) [] op = "clone_from" -> CloneFrom(nm, Other(nm)) [] op = "drop" -> DropObj(nm)
                  [] op = "clone_panic" -> ClonePanic(nm, R.j)
                  [] op = "assert_is_empty" -> CAssertEmpty(nm) [] op = "push" -> BPush(nm) [] op = "build" -> BBuild(nm)
 
